@@ -70,7 +70,8 @@ Record ostep := {
   os_same : bool;                   (* observed: xibc store, system-contract storage and balances identical before/after *)
   os_ack : option (bytes * bytes * N * ack);   (* observed EventWriteAck of this step: src, dst, seq, decoded ack *)
   os_ack_stored : bool;             (* observed: sha256(event ack) is what the store holds under the ack key (true if no ack) *)
-  os_payee : option bytes           (* observed for an accepted Acknowledgement with a fee: the account that received it *)
+  os_payee : option bytes           (* observed for an accepted Acknowledgement with a fee: the account that received
+                                       it (canonical bech32 form) *)
 }.
 
 Record hist := { h_canon : list (bytes * bytes); h_bech : list (bytes * bool); h_steps : list ostep }.
@@ -109,8 +110,8 @@ Definition op_of (k : akind) : op facts unit unit unit :=
 Definition model_class (ct : list (bytes * bytes)) (bt : list (bytes * bool)) (s : mstate) (k : akind) : nat :=
   let st := fun o => match o with Ok _ => 0%nat | Err => 1%nat | Panic => 2%nat end in
   match op_of k with
-  | ORegGov _ _ _ _ a cs ads => if validate_basic (bech_f bt) a cs ads then 0%nat else 1%nat
-  | ORegRaw _ _ _ _ _ _ _ => 0%nat
+  | ORegGov _ _ _ _ a cs ads => if validate_basic (bech_f bt) a cs ads then st (do_register _ s a cs ads) else 1%nat
+  | ORegRaw _ _ _ _ a cs ads => st (do_register _ s a cs ads)
   | OUpdate _ _ _ _ m => st (handle_update _ _ _ _ (canon_f ct) lower_inst s m)
   | ORecv _ _ _ _ m => st (handle_recv _ _ _ _ lower_inst s m)
   | OAck _ _ _ _ m => st (handle_ack _ _ _ _ ascii_fold_eq (bech_f bt) lower_inst s m)
@@ -153,7 +154,7 @@ Fixpoint cmp_steps (ct : list (bytes * bytes)) (bt : list (bytes * bool)) (i : n
       if negb (rdump_eqb (rdump_of (reg _ s')) (os_reg o)) then [(i, 2%nat)] else
       if negb (wack_matches (new_wack s s') (os_ack o)) then [(i, 3%nat)] else
       if match os_payee o with
-         | Some p => negb (Nat.eqb c 0) || match payee_of ct bt s (os_kind o) with Some q => negb (bytes_eqb p q) | None => true end
+         | Some p => negb (Nat.eqb c 0) || match payee_of ct bt s (os_kind o) with Some q => negb (bytes_eqb p (canon_f ct q)) | None => true end
          | None => false end
       then [(i, 4%nat)]
       else cmp_steps ct bt (S i) (reg _ s') l'
@@ -252,7 +253,7 @@ Definition mon_step (ct : list (bytes * bytes)) (before : rdump) (o : ostep) : l
          ++ (match os_payee o, a with
              | Some p, Some a' =>
                  match rev_find before dst (ack_relayer a') with
-                 | Some q => if acc && bytes_eqb p q then [] else [18%nat]
+                 | Some q => if acc && bytes_eqb p (canon_f ct q) then [] else [18%nat]
                  | None => [18%nat] end
              | Some _, None => [18%nat]
              | None, _ => [] end)
@@ -268,6 +269,18 @@ Definition mon_hist (h : hist) : list (nat * nat) := mon_steps (h_canon h) 0 [] 
 
 Definition monitor_failures (hs : list hist) : list (nat * (nat * nat)) :=
   flat_map (fun ih => map (fun m => (fst ih, m)) (mon_hist (snd ih))) (number 0 hs).
+
+(** The observation the MODEL predicts for one step (used to state monitor soundness:
+    the monitor accepts whatever the model does). *)
+Definition model_obs (ct : list (bytes * bytes)) (bt : list (bytes * bool)) (r : registry) (f : facts) (k : akind) : ostep :=
+  let s := {| reg := r; low := f; wlog := [] |} in
+  let c := model_class ct bt s k in
+  let s' := fst (mstep ct bt s (op_of k)) in
+  {| os_kind := k; os_facts := f; os_class := c; os_reg := rdump_of (reg _ s');
+     os_same := Nat.eqb (length (wlog _ s')) 0 && rdump_eqb (rdump_of r) (rdump_of (reg _ s'));
+     os_ack := option_map (fun w => (w_src w, w_dst w, w_seq w, w_ack w)) (new_wack s s');
+     os_ack_stored := true;
+     os_payee := if Nat.eqb c 0 then option_map (canon_f ct) (payee_of ct bt s k) else None |}.
 
 (** * Part B: system contracts (byte code), exhaustive method x caller matrix *)
 (** caller kinds: 0 externally owned account (signed Ethereum transaction), 1 deployed contract
